@@ -371,7 +371,8 @@ type Life struct {
 	fileZ   map[int]bool
 	plugin  *zap.ZapPlugin
 	light   bool
-	maxTLC  int // files up to this size are logged byte for byte
+	parkGC  bool // build-history mode: garbage collector parked, residues logged
+	maxTLC  int  // files up to this size are logged byte for byte
 }
 
 func NewLife(tr *Tracer, r *rand.Rand, dir string) *Life {
